@@ -268,6 +268,68 @@ PROPS = {
         ],
         technique="runtime monitoring: recording / fault-injecting sink, exhaustive over operation indices per input",
     ),
+    "C15": dict(
+        level="exploration",
+        floor=50,
+        builds=["harness", "cli"],
+        legs=lambda tier, seed, scratch: [
+            dict(cmd="c15m", name="c15-merge-library", cases=_q(tier, 1500, 30000), stall_s=60),
+            dict(cmd="c15f", name="c15-merge_into-and-fill", cases=_q(tier, 2000, 40000)),
+        ] + __import__("c15_tool").legs(tier, seed, scratch),
+        rule="Leg 1: merge_sections_many on 1..6 generated streams over a span of 49999..260000 bases (values starting at "
+        "base 0, crossing / ending on / starting on the 50000-base work-window boundaries, a value spanning three "
+        "windows, gaps longer than a window, the negated copy of another stream, explicit 0.0 values, empty streams, "
+        "very different lengths); values are small dyadics so every summation order is exact; oracle = per-base f64 "
+        "sum array: output sorted, positive-length, non-overlapping, bit-equal value at every base with a non-zero sum, "
+        "absent elsewhere; the first disagreement is classified by position (base 0 / at a window boundary / inside). "
+        "Leg 2: merge_into on ALL overlapping pairs of a 0..8 grid (case 0) and fill / fill_start_to_end on generated "
+        "streams (gapless, originals unchanged and in order, only zeros added, padding exact). Leg 3: the bigwigmerge "
+        "binary on 1..5 bigWigs written by bedgraphtobigwig: -b / -l / UCSC spelling, output names .bw .bigWig .bedGraph "
+        "/ --output-type, clip / adjust / threshold grids; per-base oracle v = min(clip, sum) + adjust kept iff v > "
+        "threshold for every base with a non-zero sum, bedGraph and bigWig outputs describe the same function, a "
+        "documented output name must produce the output, an all-filtered merge must terminate without a panic.",
+        assumptions=["bases whose merged sum is 0 are a don't-care once adjust is non-zero", "inputs of the tool leg are read back first; a failure there is blocked on C16"],
+        technique="runtime monitoring: per-base reference model over library streams and tool output",
+    ),
+    "C16": dict(
+        level="exploration",
+        floor=50,
+        builds=["harness", "cli"],
+        legs=lambda tier, seed, scratch: __import__("c16").legs(tier, seed, scratch),
+        rule="The built binaries end to end (bedGraph -> bedgraphtobigwig -> bigwigtobedgraph; BED -> bedtobigbed -> bigbedtobed) on "
+        "canonical multi-chromosome texts (2..6 bytewise-sorted chromosomes, no zero-length intervals, 0..9 extra BED "
+        "columns incl. UTF-8, a single-line last chromosome in ~25%, a run whose first line is much longer in ~22%, with "
+        "and without final newline, shuffled chrom.sizes with unused chromosomes) over the flag matrix -t {1,2,4,16}, "
+        "--parallel {auto,yes,no}, --single-pass, --inmemory, --uncompressed/-unc, --block-size/-blockSize=, "
+        "--items-per-slot, --zooms/--nzooms, --autosql/-as=, stdin spellings, bigtools <sub> and symlink-named multicall, "
+        "options before/after positionals; restricted outputs (--chrom/--start/--end and -chrom= ...) in 65% of cases. "
+        "Oracle (Python, text level): same records in the same order, values equal after float32 parse, extra columns "
+        "byte-identical; restricted bigWig output = clipped range query; restricted bigBed output = must / may / "
+        "must-not sets; --parallel yes on a sorted file must convert. One case = one conversion pipeline; tags are the "
+        "flags used.",
+        assumptions=["text is compared after float32 parse of values (the tools print shortest round-trip digits)"],
+        technique="runtime monitoring: end-to-end differential text oracle over the flag matrix",
+    ),
+    "C17": dict(
+        level="exploration",
+        floor=50,
+        builds=["harness", "cli"],
+        legs=lambda tier, seed, scratch: [dict(cmd="c17l", name="c17-library", cases=_q(tier, 2000, 40000))] + __import__("c17_tool").legs(tier, seed, scratch),
+        rule="Leg 1 (library): stats_for_bed_item on C01-style files (small slots) for 1..40 regions per file with ends drawn from "
+        "{0, len, value starts/ends +-3, midpoints} (inside / straddling / between / outside data) vs per-base model "
+        "(size, bases, sum, mean0, mean, min, max; NaN mean/min/max when nothing is covered; exact for the exact-"
+        "arithmetic value class, 1e-9 relative otherwise); name_for_bed_item for every column index up to 5 past the "
+        "end (must never panic; out of range = error) and interval names; bigwig_average_over_bed over the same "
+        "regions as text: one row per input row in input order. Leg 2/3 (tools): bigwigaverageoverbed with -t "
+        "{1,2,3,4,8,16}, --min-max, name modes, region files from 1 to 250 (thorough 2500) rows with very uneven line "
+        "lengths: rows within 5.01e-4 of the model and byte-identical across thread counts; bigwigvaluesoverbed: "
+        "per-base values of covered bases equal the stored float32.",
+        assumptions=[
+            "what bigwigvaluesoverbed prints for uncovered bases (0) is recorded, not demanded",
+            "the name of a 3-column BED row when column 4 is requested (empty string, exit 0) is counted, not judged",
+        ],
+        technique="runtime monitoring: per-base reference model, cross-thread-count differential",
+    ),
     "C18": dict(
         level="exploration",
         exhaustive=True,
@@ -359,3 +421,12 @@ def _late():
 
 
 _late()
+
+
+def _late2():
+    import c15_tool  # noqa: F401
+    import c16  # noqa: F401
+    import c17_tool  # noqa: F401
+
+
+_late2()
